@@ -38,6 +38,17 @@ impl Driven for D {
          _ => panic!("verif harness: unknown relation {}", rel),
       }
    }
+   fn clear(&mut self, rel: &str) {
+      match rel {
+         "sched" => { self.0.sched = Default::default(); },
+         "never" => { self.0.never = Default::default(); },
+         "step" => { self.0.step = Default::default(); },
+         "iff" => { self.0.iff = Default::default(); },
+         "ibf" => { self.0.ibf = Default::default(); },
+         "off" => { self.0.off = Default::default(); },
+         _ => panic!("verif harness: unknown relation {}", rel),
+      }
+   }
    fn run(&mut self) { self.0.run(); }
    fn dump(&self) -> Value {
       let mut m: Vec<(String, Value)> = vec![];
